@@ -137,6 +137,16 @@ pub fn run(stim: &Value, rec: &Rec) {
         package: stim["package"].as_str().unwrap_or("").into(), comments: Comments::default(),
         methods: stim["methods"].as_array().cloned().unwrap_or_default().iter().map(m).collect(), options: Default::default() };
     let o = &stim["opts"];
+    // opts.disable_comments = "first" | "all": doc comments are switched off for the first / every rpc (by its qualified name) and for
+    // the service: an option about comments must not change what is generated besides them
+    let qual = { let pkg = if o["emit_package"].as_bool().unwrap_or(true) { stim["package"].as_str().unwrap_or("") } else { "" };
+                 format!("{}{}{}", pkg, if pkg.is_empty() { "" } else { "." }, stim["service"]["proto"].as_str().unwrap_or("")) };
+    let mut no_comments: Vec<String> = vec![];
+    match o["disable_comments"].as_str().unwrap_or("") {
+        "first" => { if let Some(m) = stim["methods"].as_array().and_then(|a| a.first()) { no_comments.push(format!("{}.{}", qual, m["proto"].as_str().unwrap_or(""))); } }
+        "all" => { no_comments.push(qual.clone()); for m in stim["methods"].as_array().cloned().unwrap_or_default() { no_comments.push(format!("{}.{}", qual, m["proto"].as_str().unwrap_or(""))); } }
+        _ => {}
+    }
     if stim["manual"].as_bool().unwrap_or(false) {
         // tonic_build::manual: the same descriptor through the builder API that has no .proto behind it; each method names its own codec
         let mut sb = tonic_build::manual::Service::builder().name(stim["service"]["proto"].as_str().unwrap()).package(stim["package"].as_str().unwrap_or(""));
@@ -149,7 +159,8 @@ pub fn run(stim: &Value, rec: &Rec) {
         }
         let svc = sb.build();
         let mut cg = tonic_build::CodeGenBuilder::new();
-        cg.emit_package(o["emit_package"].as_bool().unwrap_or(true)).use_arc_self(o["arc_self"].as_bool().unwrap_or(false)).generate_default_stubs(o["default_stubs"].as_bool().unwrap_or(false));
+        cg.emit_package(o["emit_package"].as_bool().unwrap_or(true)).use_arc_self(o["arc_self"].as_bool().unwrap_or(false)).generate_default_stubs(o["default_stubs"].as_bool().unwrap_or(false))
+          .disable_comments(no_comments.iter().cloned().collect());
         let mut buf = String::new();
         if o["client"].as_bool().unwrap_or(true) { buf.push_str(&cg.generate_client(&svc, "").to_string()); buf.push('\n'); }
         if o["server"].as_bool().unwrap_or(true) { buf.push_str(&cg.generate_server(&svc, "").to_string()); }
@@ -159,6 +170,7 @@ pub fn run(stim: &Value, rec: &Rec) {
     let mut b = tonic_build::configure().build_client(o["client"].as_bool().unwrap_or(true)).build_server(o["server"].as_bool().unwrap_or(true))
         .use_arc_self(o["arc_self"].as_bool().unwrap_or(false)).generate_default_stubs(o["default_stubs"].as_bool().unwrap_or(false));
     if !o["emit_package"].as_bool().unwrap_or(true) { b = b.disable_package_emission(); }
+    for n in &no_comments { b = b.disable_comments(n); }
     let mut g = b.service_generator();
     let mut buf = String::new();
     g.generate(svc, &mut buf);
